@@ -129,3 +129,50 @@ func (w *world) checkProbes(expect *modelCRL, sOld, sBoth, sNew *big.Int, when s
 		}
 	}
 }
+
+// VerifC08_SignerHistory: keyed signatures. A list signed with the CA key K0 is in force; a refresh
+// delivers a list signed with an unknown key K1 (rejected under verify); the next refresh delivers a K0
+// list again (accepted); then a handshake presents a chain whose CA carries K1; then K0 lists keep
+// arriving. Nothing of the rejected refresh may survive the accepted one: every later K0 list takes
+// effect ("a later successful refresh still takes effect"), on both backends.
+func VerifC08_SignerHistory() {
+	installWorld()
+	w := newWorld(verifrt.Param("disk", 0) == 1, config.CRLFetchModeActively, false, config.SignatureValidationModeVerify)
+	s1, s2, s3, sB := sym("s1"), sym("s2"), sym("s3"), sym("sB")
+	all := []*big.Int{s1, s2, s3, sB}
+	for i := range all {
+		for j := i + 1; j < len(all); j++ {
+			verifrt.Assume(all[i].Cmp(all[j]) != 0)
+		}
+	}
+	loc := &core.CRLLocations{CRLDistributionPoints: []string{url1}}
+	c0 := cert("CN=I1", s1, url1)
+	mk := func(name string, key int, serial *big.Int) *modelCRL {
+		l := newCRL(name, "CN=I1", serial)
+		l.signedBy = key
+		return l
+	}
+	servers[url1] = &server{up: true, crl: mk("L1", 0, s1)}
+	_, err := w.repo.AddCRL(loc, chainsOfKey(c0, 0))
+	verifrt.Assert(err == nil, "first load (key K0 presented)")
+	revoked := func(s *big.Int) bool {
+		st, e := w.repo.IsRevoked(cert("CN=I1", s), nil)
+		return e == nil && st != nil && st.Revoked
+	}
+	servers[url1].crl = mk("LB", 1, sB)
+	w.repo.UpdateCRLs()
+	verifrt.Assert(revoked(s1) && !revoked(sB), "a list signed with an unknown key is rejected, the previous list stays")
+	servers[url1].crl = mk("L2", 0, s2)
+	w.repo.UpdateCRLs()
+	verifrt.Assert(revoked(s2) && !revoked(s1), "the next correctly signed list takes effect")
+	if verifrt.Choose(2) == 1 {
+		// a handshake whose chain carries the other key
+		_, _ = w.repo.AddCRL(loc, chainsOfKey(cert("CN=I1", s3, url1), 1))
+		verifrt.Reach("handshake-with-other-key")
+	}
+	verifrt.Assert(revoked(s2) && !revoked(sB), "a handshake does not bring the rejected list back")
+	servers[url1].crl = mk("L3", 0, s3)
+	w.repo.UpdateCRLs()
+	verifrt.Assert(revoked(s3) && !revoked(s2), "later correctly signed lists keep taking effect (nothing of the rejected refresh survived)")
+	verifrt.Reach("signer-history")
+}
